@@ -3,6 +3,7 @@
   Property theorems only.
 -/
 import BurrowVerif.Proofs.Notifier
+import BurrowVerif.Proofs.NotifierReminder
 
 namespace Burrow.Props.C14
 open Burrow Burrow.Notifier Burrow.Spec.Notifier
@@ -60,5 +61,27 @@ example : (runG [m] GroupRec.fresh hist).map (fun ns => ns.map fun n => (n.id, n
 
 example : Opens hist 5 := by
   refine ⟨⟨ev .err 50000 5, rfl, by decide⟩, Or.inr ⟨ev .ok 40000 4, rfl, by decide⟩⟩
+
+
+/-- The interval limits, it does not swallow: inside an incident a module that is not send-once, last
+    notified at evaluation `i` and not since, is notified again by the first evaluation that comes more
+    than its send interval later with the status at or above its threshold (and the group accepted). -/
+theorem reminder_when_interval_elapsed (cfgs : List ModuleCfg) (hn : NamesNodup cfgs) (evs : List Ev)
+    (i j : Nat) (hij : i < j) (hbad : AllBad evs i (j + 1))
+    (ei ej : Ev) (hei : evs[i]? = some ei) (hej : evs[j]? = some ej)
+    (cfg : ModuleCfg) (hc : cfg ∈ cfgs) (honce : cfg.sendOnce = false) (ni : Notification)
+    (hi : ni ∈ notesAt cfgs evs i) (hmi : ni.module = cfg.name) (hoi : ni.close = false)
+    (hnone : ∀ k, i < k → k < j → ∀ n ∈ notesAt cfgs evs k, n.module ≠ cfg.name)
+    (hacc : ej.acc cfg.name = true) (hthr : cfg.threshold ≤ (ej.status.toNat : Int))
+    (hdue : ej.now - ei.now > cfg.sendInterval * 1000) :
+    ∃ n ∈ notesAt cfgs evs j, n.module = cfg.name ∧ n.close = false ∧ n.status = ej.status :=
+  Proofs.Notifier.reminder_when_interval_elapsed cfgs hn evs i j hij hbad ei ej hei hej cfg hc honce ni hi hmi hoi
+    hnone hacc hthr hdue
+
+
+/-- a reminder: interval 5 s, evaluations 2 s and 6 s after the first notification -/
+private def m2 : ModuleCfg := { name := "m", threshold := 2, sendInterval := 5, sendOnce := false, sendClose := false }
+example : (runG [m2] GroupRec.fresh [ev .err 10000 1, ev .err 12000 2, ev .err 16000 3]).map (·.length) = [1, 0, 1] := by
+  decide
 
 end Burrow.Props.C14
